@@ -60,9 +60,9 @@ Theorem C07_locality_snake : forall pfx pre sw rw post S0 S1 styles,
   visible S0 = true -> visible S1 = true ->
   no_occ sw (pre ++ removelast sw) -> no_occ sw post ->
   existsb (style_eqb Snake) styles = true ->
-  find_compound_variants (pfx ++ join [95] (pre ++ sw ++ post))
+  find_compound_variants (pfx ++ join [95%N] (pre ++ sw ++ post))
                          (to_style gen_acronyms sw S0) (to_style gen_acronyms rw S1) styles =
-  [mk_cmatch (pfx ++ join [95] (pre ++ sw ++ post)) (pfx ++ join [95] (pre ++ rw ++ post)) Snake 0 0].
+  [mk_cmatch (pfx ++ join [95%N] (pre ++ sw ++ post)) (pfx ++ join [95%N] (pre ++ rw ++ post)) Snake 0 0].
 Proof. exact compound_locality_snake_words. Qed.
 
 Theorem C07_locality_kebab : forall pfx pre sw rw post S0 S1 styles,
@@ -73,9 +73,9 @@ Theorem C07_locality_kebab : forall pfx pre sw rw post S0 S1 styles,
   visible S0 = true -> visible S1 = true ->
   no_occ sw (pre ++ removelast sw) -> no_occ sw post ->
   existsb (style_eqb Kebab) styles = true ->
-  find_compound_variants (pfx ++ join [45] (pre ++ sw ++ post))
+  find_compound_variants (pfx ++ join [45%N] (pre ++ sw ++ post))
                          (to_style gen_acronyms sw S0) (to_style gen_acronyms rw S1) styles =
-  [mk_cmatch (pfx ++ join [45] (pre ++ sw ++ post)) (pfx ++ join [45] (pre ++ rw ++ post)) Kebab 0 0].
+  [mk_cmatch (pfx ++ join [45%N] (pre ++ sw ++ post)) (pfx ++ join [45%N] (pre ++ rw ++ post)) Kebab 0 0].
 Proof. exact compound_locality_kebab_words. Qed.
 
 Theorem C07_locality_dot : forall pfx pre sw rw post S0 S1 styles,
@@ -86,9 +86,9 @@ Theorem C07_locality_dot : forall pfx pre sw rw post S0 S1 styles,
   visible S0 = true -> visible S1 = true ->
   no_occ sw (pre ++ removelast sw) -> no_occ sw post ->
   existsb (style_eqb Dot) styles = true ->
-  find_compound_variants (pfx ++ join [46] (pre ++ sw ++ post))
+  find_compound_variants (pfx ++ join [46%N] (pre ++ sw ++ post))
                          (to_style gen_acronyms sw S0) (to_style gen_acronyms rw S1) styles =
-  [mk_cmatch (pfx ++ join [46] (pre ++ sw ++ post)) (pfx ++ join [46] (pre ++ rw ++ post)) Dot 0 0].
+  [mk_cmatch (pfx ++ join [46%N] (pre ++ sw ++ post)) (pfx ++ join [46%N] (pre ++ rw ++ post)) Dot 0 0].
 Proof. exact compound_locality_dot_words. Qed.
 
 Theorem C07_locality_screaming_snake : forall pfx pre sw rw post S0 S1 styles,
@@ -99,10 +99,10 @@ Theorem C07_locality_screaming_snake : forall pfx pre sw rw post S0 S1 styles,
   visible S0 = true -> visible S1 = true ->
   no_occ sw (pre ++ removelast sw) -> no_occ sw post ->
   existsb (style_eqb ScreamingSnake) styles = true ->
-  find_compound_variants (pfx ++ join [95] (map upper (pre ++ sw ++ post)))
+  find_compound_variants (pfx ++ join [95%N] (map upper (pre ++ sw ++ post)))
                          (to_style gen_acronyms sw S0) (to_style gen_acronyms rw S1) styles =
-  [mk_cmatch (pfx ++ join [95] (map upper (pre ++ sw ++ post)))
-             (pfx ++ join [95] (map upper (pre ++ rw ++ post))) ScreamingSnake 0 0].
+  [mk_cmatch (pfx ++ join [95%N] (map upper (pre ++ sw ++ post)))
+             (pfx ++ join [95%N] (map upper (pre ++ rw ++ post))) ScreamingSnake 0 0].
 Proof. exact compound_locality_screaming_snake_words. Qed.
 
 Theorem C07_locality_screaming_train : forall pfx pre sw rw post S0 S1 styles,
@@ -113,10 +113,10 @@ Theorem C07_locality_screaming_train : forall pfx pre sw rw post S0 S1 styles,
   visible S0 = true -> visible S1 = true ->
   no_occ sw (pre ++ removelast sw) -> no_occ sw post ->
   existsb (style_eqb ScreamingTrain) styles = true ->
-  find_compound_variants (pfx ++ join [45] (map upper (pre ++ sw ++ post)))
+  find_compound_variants (pfx ++ join [45%N] (map upper (pre ++ sw ++ post)))
                          (to_style gen_acronyms sw S0) (to_style gen_acronyms rw S1) styles =
-  [mk_cmatch (pfx ++ join [45] (map upper (pre ++ sw ++ post)))
-             (pfx ++ join [45] (map upper (pre ++ rw ++ post))) ScreamingTrain 0 0].
+  [mk_cmatch (pfx ++ join [45%N] (map upper (pre ++ sw ++ post)))
+             (pfx ++ join [45%N] (map upper (pre ++ rw ++ post))) ScreamingTrain 0 0].
 Proof. exact compound_locality_screaming_train_words. Qed.
 
 (* PascalCase: for EVERY visible style S1 the replacement is typed in, the words before and after the span are
